@@ -338,7 +338,8 @@ class FileSplice:
                 depth_verus += 1
             if st.startswith('} // verus!'):
                 depth_verus = max(0, depth_verus - 1)
-            m = (re.match(r'^(pub(\([a-z]+\))?\s+)?const\s+\w+\s*:\s*(usize|u8|u16|u32|u64)\s*=\s*[0-9a-fA-Fx_ +*()]+;\s*(//.*)?$', line)
+            # (integer literals, other constants by name or path, + * ( ) and `as` casts: no calls, no generics)
+            m = (re.match(r'^(pub(\([a-z]+\))?\s+)?const\s+\w+\s*:\s*(usize|u8|u16|u32|u64)\s*=\s*[\w: +*()]+;\s*(//.*)?$', line)
                  or re.match(r'^(pub(\([a-z]+\))?\s+)?const\s+\w+\s*:\s*\[u8;\s*\d+\]\s*=\s*\[[0-9a-fA-Fxu_]+;\s*\d+\];\s*(//.*)?$', line))
             ma = re.match(r'^((?:pub(?:\([a-z]+\))?\s+)?)const\s+(\w+)\s*:\s*\[u8;\s*(\d+)\]\s*=\s*\[([0-9a-fA-Fxu_]+);\s*(\d+)\];', line)
             if ma and depth_verus == 0 and not line.startswith(' '):
@@ -370,20 +371,82 @@ class FileSplice:
         self._set(self.s.replace(old, new))
 
 
+def _exec_fns_in_verus(s, mask):
+    """(name, header_pos, body_open, body_close) of every exec fn item lying inside a verus!{} region"""
+    out = []
+    regions = []
+    for m in re.finditer(r'\bverus!\s*\{', s):
+        if not mask[m.start()]:
+            continue
+        o = m.end() - 1
+        try:
+            regions.append((o, match_close(s, mask, o)))
+        except LostAnchor:
+            pass
+    for m in re.finditer(r'\bfn\s+(\w+)', s):
+        if not mask[m.start()] or not any(a < m.start() < b for a, b in regions):
+            continue
+        pre = s[max(0, m.start() - 40):m.start()]
+        if re.search(r'\b(spec|proof)\s+(\(checked\)\s+)?$', pre) or re.search(r'\baxiom\s+$', pre):
+            continue
+        try:
+            j = next_code_char(s, mask, '{;', m.end(), len(s))
+        except LostAnchor:
+            continue
+        if s[j] == ';':
+            continue
+        out.append((m.group(1), m.start(), j, match_close(s, mask, j)))
+    return out
+
+
+def _plain_loops(s, mask, lo, hi):
+    """loops in s[lo:hi] that carry no `invariant` (Verus havocs whatever such a loop modifies: a failed
+    obligation after it says nothing about the code)"""
+    n = 0
+    for m in re.finditer(r'\bfor\b[^;{}]*?\bin\b|\bwhile\b|\bloop\b', s[lo:hi]):
+        a = lo + m.start()
+        if not mask[a]:
+            continue
+        try:
+            j = next_code_char(s, mask, '{', lo + m.end(), hi)
+        except LostAnchor:
+            continue
+        if not re.search(r'\binvariant\b', s[a:j]):
+            n += 1
+    return n
+
+
 def index_file(F, records):
-    """after all ops: line ranges of every contracted fn and the property tags of its contract header"""
+    """after all ops: line ranges of every contracted fn and the property tags of its contract header;
+    plus, per fn, what makes a failed obligation in it INCONCLUSIVE: loops without invariant and calls of
+    crate functions that are verified without any contract (helpers the contracts do not know)"""
     out = []
     s = F.s
+    mask = F.mask
     def line_of(i):
         return s.count('\n', 0, i) + 1
+    located = []
     for r in records:
         if r['rel'] != F.rel:
             continue
         it = F.locate(r['scopes'], r['fn_rx'])
+        located.append((r, it))
+    allfns = _exec_fns_in_verus(s, mask)
+    known = set(it.header for _, it in located)
+    def is_known(pos):
+        return any(it.header <= pos <= it.body_open for _, it in located)
+    # (`fn default` of the wrapped `impl Default` blocks carries its ensures in the wrapper text, not via contract())
+    unknown = sorted(set(name for name, pos, _, _ in allfns if not is_known(pos)) - {'default'})
+    for r, it in located:
         hdr = s[it.header:it.body_open]
         tags = []
         for m in re.finditer(r'/\*@([^*]*)\*/', hdr):
             tags.append({'line': line_of(it.header + m.start()), 'props': m.group(1).split()})
+        loops, calls = 0, []
+        if it.has_body:
+            loops = _plain_loops(s, mask, it.body_open, it.end)
+            body = ''.join(ch if mask[k + it.body_open] else ' ' for k, ch in enumerate(s[it.body_open:it.end]))
+            calls = [u for u in unknown if re.search(r'\b%s\s*(::<[^;{}]*?>)?\s*\(' % re.escape(u), body)]
         out.append(dict(r, start=line_of(it.header), body=line_of(it.body_open), end=line_of(it.end - 1),
-                        has_body=it.has_body, tags=tags))
+                        has_body=it.has_body, tags=tags, plain_loops=loops, calls_uncontracted=calls))
     return out
